@@ -1810,3 +1810,44 @@ package ice
 //@ // only when the field lists are the same across all inputs and the segment has no deletions ----
 //@ func mergeStoredAndRemap
 //@   at call:(*Segment).copyStoredDocs#0 lemma[C03,C06] fieldsSame && (dropsI == nil || card(bset(dropsI)) == 0)
+//@
+//@ // ---- C18: the term whose text is looked up is the term whose field chose the dictionary ----
+//@ func (*Segment).DocsMatchingTerms
+//@   at call:(*Dictionary).postingsList#0 lemma[C18] thisField == termField(term) && term == terms[i]
+//@
+//@ // ---- C04/C07: every merged field's doc-value offset pair is decided by buildMergedDocVals for
+//@ // that field (it writes both "no doc values" sentinels, or the stream positions before and after the
+//@ // field's doc-value section): loadDvReaders rejects a pair left at its zero value ----
+//@ ghostvar dvfield int
+//@ func buildMergedDocVals
+//@   ghostset dvfield = fieldID
+//@   ensures[C04,C07] dvfield == fieldID
+//@ func persistMergedRestField
+//@   ensures[C04,C07] @doc_value_pair_decided_for_this_field result0 == nil ==> dvfield == fieldID
+//@
+//@ // ---- C06/C10: every document gets a record in its block, also one without any stored field:
+//@ // uvarint meta length, uvarint data length, meta, data (records have no terminator, so an
+//@ // omitted empty record would make the document's offset point at its successor) ----
+//@ func (*chunkedDocumentCoder).writeToBuf
+//@   ensures[C06,C10] result1 == nil && result0 == len(data)
+//@ func (*chunkedDocumentCoder).Add
+//@   ensures[C06,C10] @record_always_written result1 == nil ==> result0 == uvlen(len(meta)) + uvlen(len(data)) + len(meta) + len(data)
+//@
+//@ // ---- C08/C02: every finished term goes through writePostings exactly once, whatever the
+//@ // last contributing segment left in lastFreq/lastDocNum/lastNorm (they describe only the last
+//@ // segment holding the term): whether the term gets postings and a dictionary entry is decided by
+//@ // the accumulated bitmap alone (writePostings: empty bitmap -> offset 0 -> no entry) ----
+//@ ghostvar wpcount int
+//@ func writePostings
+//@   ghostset wpcount = old(wpcount) + 1
+//@   ensures[C02,C08] wpcount == old(wpcount) + 1
+//@ func finishTerm
+//@   ensures[C02,C08] @postings_decided_by_the_bitmap result0 == nil ==> wpcount == old(wpcount) + 1
+//@   at call:(*github.com/blevesearch/vellum.Builder).Insert#0 lemma[C02,C08] postingsOffset > 0
+//@
+//@ // ---- C09/C13: a pooled visit context is used only while it is checked out: it goes back to
+//@ // the pool after the visit (and its callbacks) are over, never before ----
+//@ func (*Segment).visitDocument
+//@   requires[C09,C13] @context_checked_out vdc != nil && !pooled(vdc)
+//@ func mergeStoredAndRemapSegment
+//@   requires[C09,C13] @context_checked_out vdc != nil && !pooled(vdc)
